@@ -13,7 +13,7 @@
     What lies below the WSGI layer (the protocols, the user function, the
     serialisers) is NOT modelled: its outcome at each stage is an input of the
     scenario and is universally quantified in the theorems. *)
-From SpyneV Require Export Base.Prelude Base.Digits.
+From SpyneV Require Export Base.Prelude Base.Digits Gen.WsgiReader.
 
 (** ** configuration: WsgiApplication(app, chunked, max_content_length, block_length) *)
 Record cfg := Cfg { chunked : bool; mcl : Z; bl : Z }.
@@ -80,8 +80,8 @@ Inductive dlen := LBad | LLen (length : Z) (declared : bool).
 
 Definition declared_length (c : cfg) (h : option text) : dlen :=
   match h with
-  | None => LLen (mcl c) false                 (* no header: length = max_content_length *)
-  | Some [] => LLen 0 true                     (* len(length) == 0 *)
+  | None => LLen (rd_undeclared_length (mcl c) (bl c)) false   (* no header: length = max_content_length *)
+  | Some [] => LLen rd_empty_length true       (* len(length) == 0 *)
   | Some s => match int_of_text s with         (* int(length) *)
               | Some z => LLen z true
               | None => LBad                   (* ValueError -> ValidationError *)
@@ -94,27 +94,32 @@ Definition answer (n a : Z) : Z :=
   if n <? 0 then Z.max 0 a else Z.max 0 (Z.min n a).
 
 (** ** __read_wsgi_input: the loop.  Structural on the stream: every iteration
-    that continues consumes one answer. *)
-Inductive rres := RDone | RTooLong.
+    that continues consumes one answer.  The conditions and the size of the
+    next read are the expressions of the working tree (Gen/WsgiReader.v,
+    generated from wsgi.py); [RDiverge]: the loop would go on reading a stream
+    that has ended (cannot happen with the end-of-stream test the tree has). *)
+Inductive rres := RDone | RTooLong | RDiverge.
 
 Fixpoint read_loop (c : cfg) (length : Z) (declared : bool) (bytes_read : Z)
          (st : list Z) {struct st} : list (Z * Z) * rres :=
-  if bytes_read <? length then
-    let n := Z.min (bl c) (length - bytes_read) in
-    if n + bytes_read >? mcl c then ([], RTooLong)
+  if rd_loop_cond (mcl c) (bl c) length bytes_read declared then           (* while ...: *)
+    let n := rd_to_read (mcl c) (bl c) length bytes_read in                 (* bytes_to_read = ... *)
+    if rd_loop_too_long (mcl c) (bl c) length bytes_read n then ([], RTooLong)
     else match st with
-         | [] => ([(n, 0)], RDone)                 (* data is None or len(data) == 0: return *)
+         | [] => ([(n, 0)], if rd_eof false 0 then RDone else RDiverge)     (* the stream has ended *)
          | a :: rest =>
-             let got := answer n a in
-             if got =? 0 then ([(n, 0)], RDone)
+             let got := answer n a in                                       (* data = istream.read(n) *)
+             if rd_eof false got then ([(n, got)], RDone)                   (* if ...: return *)
              else let '(t, r) := read_loop c length declared (bytes_read + got) rest in
-                  ((n, got) :: t, r)
+                  ((n, got) :: t, r)                                        (* bytes_read += len(data); yield *)
          end
-  else ([], if declared then RDone else RTooLong). (* if not declared: raise RequestTooLongError *)
+  else ([], if rd_after_loop_too_long (mcl c) (bl c) length bytes_read declared
+            then RTooLong else RDone).                                      (* after the loop *)
 
 (** ** what the callable does once the body is dealt with *)
 Inductive resp :=
 | Escapes (e : exn)        (* the callable raises: start_response is never called *)
+| Diverges                 (* the callable never returns (see [RDiverge]) *)
 | Responds (k : rkind) (cl : option Z) (chunks : list Z) (fails : bool) (fin : list ev).
                            (* start_response(k, cl); return _ResponseIterator(chunks, fin) *)
 
@@ -158,13 +163,14 @@ Definition handle_rpc (c : cfg) (r : req) : outcome :=
   match declared_length c (clen r) with
   | LBad => Out [] false (handle_error r FBadLength)
   | LLen length declared =>
-      if length >? mcl c then Out [] false (handle_error r FTooLong)
+      if rd_up_front_too_long (mcl c) (bl c) length then Out [] false (handle_error r FTooLong)
       else
         (* generate_contexts: create_in_document joins ctx.in_string, or not *)
         let '(reads, rr) := if consume r then read_loop c length declared 0 (stream r)
                             else ([], RDone) in
         match rr with
         | RTooLong => Out reads false (handle_error r FTooLong)   (* except Fault *)
+        | RDiverge => Out reads false Diverges
         | RDone =>
             match s_gen r with
             | SCrash e => Out reads false (Escapes e)
@@ -213,6 +219,7 @@ Fixpoint serve (chunks : list Z) (fails : bool) (fin : list ev)
 Definition respond (rs : resp) (take : option nat) (closes : bool) : list ev :=
   match rs with
   | Escapes e => [Raise e]
+  | Diverges => []
   | Responds k cl ch f fin => Start k cl :: serve ch f fin take closes
   end.
 
